@@ -112,7 +112,7 @@ def wide_documents(draw, max_subnets=9, extras=True):
                subnet_scan_cost=draw(st.sampled_from(SCAN_COSTS)), process_scan_cost=1,
                host_configurations=hostcfg, firewall=firewall)
     if draw(st.booleans()):
-        doc["step_limit"] = draw(st.integers(5, 60))
+        doc["step_limit"] = draw(st.integers(5, 60)) if _coin(draw, 0.8) else draw(st.sampled_from([200, 250, 601]))
     if extras and _coin(draw, 0.3):
         doc["_discovery_values"] = {a: draw(st.sampled_from(DISCOVERY_VALUES)) for a in addrs}
     return doc
@@ -277,7 +277,7 @@ def documents(draw, max_subnets=4, max_size=3, max_hosts=7, extras=True,
         process_scan_cost=draw(st.sampled_from(SCAN_COSTS)),
         host_configurations=hostcfg, firewall=firewall)
     if draw(st.booleans()):
-        doc["step_limit"] = draw(st.integers(1, 30))
+        doc["step_limit"] = draw(st.integers(1, 30)) if _coin(draw, 0.8) else draw(st.sampled_from([199, 200, 201, 333, 1000]))
     if extras:
         if _coin(draw, 0.35):
             doc["_discovery_values"] = {
